@@ -382,5 +382,6 @@ SWEEP = ["concurrent/test_bounded_queue.cpp", "concurrent/test_bounded_queue_pre
 
 # name anchors (validated by tools/rename_sweep.py; a vanished name is exit 2, see core.check_anchor_names)
 ANCHORS = {
+    '_slot_bits': ['^babylon::ConcurrentBoundedQueue(<|$)'],
     'push_version_for_index': ['^babylon::ConcurrentBoundedQueue(<|$)'],
 }
